@@ -1,4 +1,4 @@
 From Coq Require Import Extraction ExtrOcamlBasic.
 From Cicada Require Import Base.Chars Model.Redirs.
 Extraction Language OCaml.
-Extraction "c04r_model.ml" tokens_to_redirections from_tokens from_tokens_att.
+Extraction "c04r_model.ml" tokens_to_redirections from_tokens from_tokens_core.
